@@ -225,10 +225,23 @@ func c18Limits(w *World, a *Agents, op *Op) {
 	// the known defect is "one store instance, one filter's limits"; with a store of its own, or equal
 	// limits everywhere, the same symptom is a different defect)
 	sharing := "store-not-shared-with-other-limits"
+	owner := f.Idx // the filter whose limits the shared store instance carries on the unchanged tree: the FIRST
+	// memory-backed filter for the in-memory store, the LAST filter naming a Redis URI for that Redis store
 	for _, o := range w.Filters {
-		if o.Idx != f.Idx && o.Spec.Store == f.Spec.Store && (o.Spec.AbsTimeout != f.Spec.AbsTimeout || o.Spec.IdleTimeout != f.Spec.IdleTimeout) {
+		if o.Spec.Store != f.Spec.Store {
+			continue
+		}
+		if o.Idx != f.Idx && (o.Spec.AbsTimeout != f.Spec.AbsTimeout || o.Spec.IdleTimeout != f.Spec.IdleTimeout) {
 			sharing = "store-shared-with-other-limits"
 		}
+		if f.Spec.Store == "memory" && o.Idx < owner || f.Spec.Store != "memory" && o.Idx > owner {
+			owner = o.Idx
+		}
+	}
+	if sharing == "store-shared-with-other-limits" && owner == f.Idx {
+		// the known defect ("one store instance, one filter's limits") explains wrong limits for the OTHER filters
+		// of the store, never for the one whose limits the store was built with
+		sharing = "store-shared-but-built-with-this-filters-limits"
 	}
 	// choose which limit to probe
 	limit, which := idle, "idle"
